@@ -151,11 +151,14 @@ WMedianBounds(a, w) ==
 (* constructive version: the value at the half-weight point; the midpoint of the two middle (positive-weight) *)
 (* values when the half-weight point falls exactly between them                                               *)
 WeightedMedian(a, w) == LET b == WMedianBounds(a, w) IN IF b[1] = b[2] THEN b[1] ELSE FxMid(b[1], b[2])
-(* the values an implementation may return and still be "the" weighted median when zero-weight data lie       *)
-(* between the two middle values: every data value in [lo, hi], the midpoints of neighbours, and (lo+hi)/2    *)
+(* the values that count as "the" weighted median: the value at the half-weight point; when that point falls     *)
+(* exactly between two values, their midpoint -- unless zero-weight data lie on or between the two, where "the two *)
+(* middle values" is ambiguous (is a weightless value a middle value?): then every data value in [lo, hi], the      *)
+(* midpoints of neighbours, and (lo+hi)/2.  All of them satisfy IsWeightedMedian.                                   *)
 WMedianCandidates(a, w) ==
     LET b == WMedianBounds(a, w) IN
     IF b[1] = b[2] THEN {b[1]}
+    ELSE IF \A i \in 1..Len(a) : ~(ZIsZero(w[i]) /\ ZLe(b[1], a[i]) /\ ZLe(a[i], b[2])) THEN {FxMid(b[1], b[2])}
     ELSE LET inside == FxSortAsc(SelectSeq(a, LAMBDA x : ZLe(b[1], x) /\ ZLe(x, b[2])))
          IN {inside[k] : k \in 1..Len(inside)}
             \cup {FxMid(inside[k], inside[k + 1]) : k \in 1..Len(inside) - 1}
